@@ -203,6 +203,20 @@ pub fn run(tier: Tier, seed: u64) -> i32 {
                             }
                         }
                     }
+                    // the same rounds asked last-to-first, twice each, on a fresh verifier: same coordinates (the answer for a
+                    // round does not depend on which rounds were asked before)
+                    {
+                        let mut v2 = MatrixCardVerifier::new(count, h, sd, w, key);
+                        for round in (0..count).rev() {
+                            for _ in 0..2 {
+                                let got = catch(|| v2.get_matrix_coordinates(round));
+                                if got.as_ref().ok() != Some(&coords.get(round as usize).copied()) {
+                                    viol(&report, "round-answer-depends-on-the-order-of-questions", json!({"w": w, "h": h, "count": count, "seed": sd, "round": round}), format!("asked last-to-first, round {round} yields {got:?}; asked first-to-last it yields {:?}", coords.get(round as usize)));
+                                    return;
+                                }
+                            }
+                        }
+                    }
                     // observation only: agreement with the game client's selection scheme
                     let refsel: Vec<(u8, u8)> = matrix_cells(w, h, count, sd).iter().map(|c| (c % w, c / w)).collect();
                     if refsel == coords {
